@@ -52,6 +52,8 @@ def gen_ie(rng):
     k = rng.randrange(11)
     dt = rng.choice(DTS)
     u = rng.random()
+    if k in (2, 5) and u < 0.35:
+        u = 0.75                       # nearest: sit on the decision boundary often
     if u < 0.70:
         t = dt * rng.uniform(0.05, 0.95)
     elif u < 0.80:
